@@ -144,6 +144,134 @@ def run(chk):
     rule_M3(chk, eng, inscope)
     rule_M4(chk, eng)
     rule_M5(chk, eng, inscope)
+    rule_M6(chk, eng, inscope, set(scope))
+    rule_M7(chk)
+    from . import e10
+    e10.run_U6(chk, ("yastn",), rule="M8")
+    if chk.rules["M8"]["ok"] + chk.rules["M8"]["bad"] < 100:
+        raise AnalysisError(f"M8: only {chk.rules['M8']['ok']} functions with defaults were examined (expected > 100)")
+
+
+def _external_call_sites(prog, scope):
+    """Call sites `f(..)` in repository modules OUTSIDE the engine's scope whose callee resolves (through the imports) to a
+    repository function: {id(function node): [(module, enclosing def, call)]}."""
+    out = {}
+    for mname, m in prog.modules.items():
+        if mname in scope or "torch" in mname:
+            continue
+        for d in ast.walk(m.tree):
+            if not isinstance(d, (ast.FunctionDef, ast.AsyncFunctionDef)):
+                continue
+            for n in A.walk_local(d):
+                if isinstance(n, ast.Call) and isinstance(n.func, ast.Name):
+                    r = prog.resolve(m, n.func.id)
+                    if r is not None and hasattr(r, "node") and hasattr(r, "params"):
+                        out.setdefault(id(r.node), []).append((m, d, n))
+    return out
+
+
+def rule_M6(chk, eng, funcs, scope):
+    """Frontier of the engine's scope.  A value-returning helper of an in-scope module that is called from a module the engine
+    does not analyse (the PEPS environments) has no analysed public caller that would inherit its summary; where such a call
+    site hands over a parameter of its own (public) enclosing operation unchanged, a write to that parameter by the helper is
+    a write to the user's argument."""
+    chk.rule("M6", "helpers called from modules outside the engine's scope do not write a parameter that the outside caller "
+                   "passes straight from its own parameters", floor=3)
+    ext = _external_call_sites(eng.prog, scope)
+    for f in funcs:
+        if is_public(f, eng.prog) or is_inplace(f) or id(f.node) not in ext:
+            continue
+        s = eng.summary(f)
+        if not s.returns_value:
+            continue
+        bad = {pi: paths for pi, paths in s.mut.items() if paths}
+        hit = False
+        for m, d, call in ext[id(f.node)]:
+            own = {a.arg for a in d.args.posonlyargs + d.args.args + d.args.kwonlyargs}
+            rebound = {t.id for n in A.walk_local(d) for t in (n.targets if isinstance(n, ast.Assign) else
+                                                                [n.target] if isinstance(n, (ast.AugAssign, ast.AnnAssign, ast.For)) else [])
+                       for t in ast.walk(t) if isinstance(t, ast.Name)}
+            public_caller = not d.name.startswith("_") or (d.name.startswith("__") and d.name.endswith("__"))
+            for pi, paths in sorted(bad.items()):
+                pname = f.params[pi]
+                arg = call.args[pi] if pi < len(call.args) and not any(isinstance(a, ast.Starred) for a in call.args[:pi + 1]) \
+                    else next((k.value for k in call.keywords if k.arg == pname), None)
+                if isinstance(arg, ast.Name) and arg.id in own and arg.id not in rebound and public_caller \
+                        and not (d.name.endswith("_") and not d.name.endswith("__")):
+                    ev, o = _first_event(eng, f, pi)
+                    node = ev.node if ev is not None else f.node
+                    where = ".".join(o[2]) if o is not None and o[2] else ""
+                    chk.bad("M6", (f, node), ev.text if ev is not None else f"{f.short}:{pname}",
+                            f"{f.short}() may write its parameter `{pname}`{('.' + where) if where else ''} "
+                            f"({ev.kind if ev is not None else 'write'}), and {m.relpath}:{call.lineno} {d.name}() passes its own "
+                            f"parameter `{arg.id}` to it unchanged: the public operation modifies its argument",
+                            {"parameter": pname, "paths": [".".join(p) for p in sorted(paths)][:6],
+                             "call_site": f"{m.relpath}:{call.lineno}"})
+                    hit = True
+        if not hit:
+            chk.ok("M6", f, f"{f.short}({', '.join(f.params)}) <- {len(ext[id(f.node)])} outside call site(s)", sample=False)
+
+
+# ------------------------------------------------------------------ M7: direct writes in the PEPS environments
+# The environments are outside the scope of M1 (the interprocedural summaries are too coarse there, DESIGN 9.9).  The DIRECT writes
+# of their public value-returning operations -- an attribute / item store, setattr or container mutator whose target the engine
+# resolves to (something reachable from) a parameter, in the operation's own body -- are precise enough to be held to the property.
+M7_PREFIX = "yastn.tn.fpeps.envs"
+M7_SKIP = {
+    "yastn.tn.fpeps.envs.fixed_pt": "torch.autograd.Function: forward(ctx, ..) stores on the autograd context by protocol",
+    "yastn.tn.fpeps.envs.fixed_pt_c4v": "torch.autograd.Function (as fixed_pt)",
+    "yastn.tn.fpeps.envs.para_ctmrg": "ray remote worker: UpdateSite fills the projector slots of the environment copy it was sent",
+}
+M7_EXCEPTIONS = {
+    ("EnvBoundaryMPS.measure_nsite", "self", ()): "per-call scratch attributes xrange / yrange, overwritten by every call and read only "
+                                                  "by _measure_nsite (window protocol shared with EnvWindow)",
+    ("EnvCTM.ctm_conv_corner_spec", "history", ()): "accumulator handed back in the return value (as expand_krylov_space's V and H); "
+                                                    "its default is a new list per call (M8)",
+}
+
+
+def rule_M7(chk):
+    prog = chk.prog
+    chk.rule("M7", "public value-returning operations of the PEPS environments do not directly write (anything reachable from) a "
+                   "parameter", floor=60)
+    scope = [m for m in prog.modules if (any(m == p or m.startswith(p) for p in QUICK_SCOPE_PREFIXES) or m.startswith(M7_PREFIX))
+             and "torch" not in m]
+    eng = Engine(prog, scope, exempt=MEMO_EXEMPT).run()
+    chk.extra["M7_functions_analysed"] = len(eng.funcs)
+    for f in eng.funcs:
+        if not f.module.name.startswith(M7_PREFIX) or f.module.name in M7_SKIP:
+            continue
+        if not is_public(f, prog) or is_inplace(f):
+            continue
+        s = eng.summary(f)
+        if not s.returns_value:
+            continue
+        fa = eng.analysis(f)
+        hit = False
+        seen = set()
+        for ev in fa.events:
+            if ev.via:
+                continue
+            for o in ev.targets:
+                if not is_shared_param(o):
+                    continue
+                pname = f.params[o[0][1]]
+                if (f.short, pname, tuple(o[2])) in M7_EXCEPTIONS:
+                    key = (f.short, pname)
+                    if key not in seen:
+                        seen.add(key)
+                        chk.note(f"M7 named exception {f.short}({pname}): {M7_EXCEPTIONS[(f.short, pname, tuple(o[2]))]}")
+                    continue
+                where = ".".join(o[2])
+                chk.bad("M7", (f, ev.node), ev.text,
+                        f"{f.short}() is a public value-returning operation of an environment and is not part of the in-place API, "
+                        f"but its {ev.kind} writes `{pname}`{('.' + where) if where else ''}, an object the caller keeps "
+                        f"(e.g. a site environment taken from self[..] without shallow_copy())",
+                        {"parameter": pname, "path": where})
+                hit = True
+                break
+        if not hit:
+            chk.ok("M7", f, f"{f.short}({', '.join(f.params)})", sample=False)
 
 
 def _describe(eng, f, pi):
@@ -500,6 +628,9 @@ def rule_M5(chk, eng, funcs):
 
 
 MUTANTS = [
+    ('projector dictionaries of the caller reused', 'yastn/tn/fpeps/_gates_auxiliary.py', '        projectors[k] = dict(v) if isinstance(v, dict) else dict(enumerate(v))', '        projectors[k] = v if isinstance(v, dict) else dict(enumerate(v))', 'M6'),
+    ('BP sampling works on the stored site environments', 'yastn/tn/fpeps/envs/_env_bp.py', '                env[nx, ny] = self[nx0, ny0].shallow_copy()', '                env[nx, ny] = self[nx0, ny0]', 'M7'),
+    ('history list shared through the default', 'yastn/tn/fpeps/envs/_env_ctm.py', 'history: None | Sequence[dict[tuple[Site, str], Tensor]]=None,', 'history: None | Sequence[dict[tuple[Site, str], Tensor]]=[],', 'M8'),
     ('LAPACK may overwrite the operand', 'yastn/backend/backend_np.py', '            S = scipy.linalg.svd(data[slice(*sl)].reshape(D), full_matrices=False, compute_uv=False)\n', '            S = scipy.linalg.svd(data[slice(*sl)].reshape(D), full_matrices=False, compute_uv=False, overwrite_a=True)\n', 'M1'),
     ("gate application pops from the receiver's swaps", "yastn/tn/fpeps/_doublePepsTensor.py",
      "        swaps = dict(self.swaps)\n        if 'k4' in swaps:", "        swaps = self.swaps\n        if 'k4' in swaps:", "M1"),
